@@ -2,8 +2,8 @@
 from props import matcher_common as mc
 
 NAMESPACE = 'C07'
-LEAN_TARGETS = ['MxV.Props.C07', 'MxV.Props.Slotted']
-THEOREMS = ['C07_reject_needed_flat', 'C07_reject_needed_rootChoice', 'C07_complete_rootChoice', 'templates_min_le_max', 'C07_complete_flat', 'Slotted.C07_complete_slotted', 'Slotted.C07_reject_needed_slotted']
+LEAN_TARGETS = ['MxV.Props.C07', 'MxV.Props.Slotted', 'MxV.Props.C07x']
+THEOREMS = ['C07_reject_needed_flat', 'C07_reject_needed_rootChoice', 'C07_complete_rootChoice', 'templates_min_le_max', 'C07_complete_flat', 'Slotted.C07_complete_slotted', 'Slotted.C07_reject_needed_slotted', 'over_the_bound_is_hopeless', 'maxCount_bounds_every_word']
 TRUSTED_BASE = ['Lean 4.33.0 kernel', 'axioms: propext, Quot.sound, Classical.choice only (audited per theorem)',
                 'translator extract/*.py (templates regenerated every run)',
                 'correspondence harness (real library vs Mfull on all 94 types, vs Msimple on the 68 Tame types)']
